@@ -67,6 +67,13 @@ func (w *Wire) SetStrict(on bool) {
 // ErrStarved is returned by a strict wire when the reader asks for bytes that nobody will write.
 var ErrStarved = errors.New("p2psim: reader waits for bytes that were never written (stream starved)")
 
+// StopLog stops recording the transcript and drops what was recorded (long streams).
+func (w *Wire) StopLog() {
+	w.mu.Lock()
+	w.nolog, w.log = true, nil
+	w.mu.Unlock()
+}
+
 // TakeHeld removes and returns everything written while held.
 func (w *Wire) TakeHeld() []byte {
 	w.mu.Lock()
